@@ -219,5 +219,20 @@ CLAIMS["C12"] = {
     "technique": "abstract values of the serialisers + stack-shape pairing analysis + provenance of id=/flags",
     "ref": "DESIGN.md section 5 C12",
 }
+CLAIMS["C13"] = {
+    "text": "Decides the attachment clauses (which element a text belongs to, independence of analysis order), not the text itself: "
+            "the one-entry docstring cache returns the cached value only under 'cached key == qualified name', writes key and value "
+            "together and computes the value from the key alone, is touched only by its accessor, and the parsers keep no other "
+            "mutable state (so attachment cannot depend on query order); a qualified name resolves segment by segment (only the "
+            "root segment may be skipped); every lookup in the visitor uses the node / name / owner of the element being built and "
+            "the result is stored on that element; every emitter renders the docstring of the element it emits (with that element "
+            "as node), and @param / @result / description parts come from that element's own data; the module docstring search "
+            "stops at the first string; in example lines only the line's own prompt marker is rewritten. Line-for-line fidelity "
+            "of the text through griffe, the equivalence of the NumPy/Google/reST parsers and which example lines survive are "
+            "properties of griffe's parsers and string processing and are NOT decided.",
+    "note": TRUST,
+    "technique": "typestate of the docstring cache + argument provenance (same-subject) at lookups and emitters",
+    "ref": "DESIGN.md section 5 C13",
+}
 
 NOT_APPLICABLE = {}
